@@ -7,7 +7,13 @@
       - package.py       Package.next_image_partname, _ImageParts.get_or_add_image_part,
                          _ImageParts._find_by_sha1 (iteration over image relationships)
       - parts/slide.py   SlidePart.get_or_add_image_part (package lookup, then relate_to)
-      - opc/package.py   _Relationships.get_or_add / _next_rId
+      - opc/package.py   _Relationships.get_or_add / _next_rId / pop, Part.drop_rel,
+                         OpcPackage.iter_rels / iter_parts: what the package reaches is found by
+                         walking the relationships at every call, so the store of the model is
+                         computed from the relationships of the slides, never remembered
+      - removal          of a slide (p:sldId and the presentation relationship) and of one
+                         relationship of a slide; a part nothing leads to any more stays an
+                         object but is neither looked up, nor counted for names, nor saved
       - oxml/shapes/picture.py  CT_Picture._fill_cropping, ST_Percentage.convert_to_xml
     Definitions only; proofs live in proofs/Image_proofs.v.
 
@@ -295,8 +301,9 @@ Definition next_image_partname (names : list str) (ext : str) : res str :=
 (* ------------------------------------------------------------------ relationships *)
 
 (** one relationship of a slide: the number n of its key rIdn (0 when the key is not of
-    that form) and, for an image relationship, the name of the target part *)
-Definition rel := (N * option str)%type.
+    that form) and, for an image relationship, the IDENTITY of the target part (a
+    relationship holds a reference to the part object, not its name) *)
+Definition rel := (N * option N)%type.
 
 Fixpoint next_rid_from (n : nat) (keys : list N) : option N :=
   match n with
@@ -306,29 +313,57 @@ Fixpoint next_rid_from (n : nat) (keys : list N) : option N :=
 (** for n in range(len + 1, 0, -1): first candidate not in use *)
 Definition next_rid (keys : list N) : option N := next_rid_from (S (length keys)) keys.
 
-Definition rel_targets (nm : str) (r : rel) : bool :=
-  match snd r with Some t => str_eqb t nm | None => false end.
+Definition rel_targets (i : N) (r : rel) : bool :=
+  match snd r with Some t => N.eqb t i | None => false end.
 
-(** _Relationships.get_or_add(RT.IMAGE, part): reuse a matching relationship *)
-Definition relate (nm : str) (rs : list rel) : res (list rel * N) :=
-  match find (rel_targets nm) rs with
+(** _Relationships.get_or_add(RT.IMAGE, part): reuse a relationship to that very part *)
+Definition relate (i : N) (rs : list rel) : res (list rel * N) :=
+  match find (rel_targets i) rs with
   | Some r => Ok (rs, fst r)
   | None => match next_rid (map fst rs) with
-            | Some k => Ok (rs ++ [(k, Some nm)], k)
+            | Some k => Ok (rs ++ [(k, Some i)], k)
             | None => Err OtherErr
             end
   end.
 
+Definition has_key (k : N) (r : rel) : bool := N.eqb (fst r) k.
+
+(** part.drop_rel(rId) on a relationship nothing in the part refers to any more:
+    _Relationships.pop, KeyError when there is no such key *)
+Definition drop_rel (k : N) (rs : list rel) : res (list rel) :=
+  if existsb (has_key k) rs then Ok (filter (fun r => negb (has_key k r)) rs) else Err KeyErr.
+
 (* ------------------------------------------------------------------ the store *)
 
-(** A reachable part.  [p_cls]: it is an ImagePart instance (has a sha1);
-    [p_rel]: some image relationship reaches it (so _ImageParts iterates it). *)
+(** A part OBJECT, reachable or not.  [p_id]: its identity; [p_cls]: it is an ImagePart
+    instance (has a sha1); [p_fix]: the package reaches it without passing through the
+    relationships of a slide (presentation, masters, layouts, thumbnail and whatever those
+    reach); [p_rel]: an image relationship of such an always-reachable part targets it. *)
 Record part := mkPart {
-  p_name : str; p_ct : str; p_blob : blob; p_cls : bool; p_rel : bool; p_meta : pilmeta }.
+  p_id : N; p_name : str; p_ct : str; p_blob : blob; p_cls : bool; p_fix : bool; p_rel : bool;
+  p_meta : pilmeta }.
 
-Definition visible (p : part) : bool := p_cls p && p_rel p.
+(** [st_heap]: every part object there is, in the order _find_by_sha1 met them at load time
+    followed by creation order -- including the ones no relationship leads to any more;
+    [st_slides]: the relationships of each slide the presentation lists; [st_next]: the
+    identity the next new object gets (above every identity handed out so far). *)
+Record state := mkState { st_heap : list part; st_slides : list (list rel); st_next : N }.
 
-Record state := mkState { st_parts : list part; st_slides : list (list rel) }.
+(** the parts the image relationships of the slides lead to *)
+Definition img_targets (rs : list rel) : list N := opt_somes (map snd rs).
+Definition targets (sl : list (list rel)) : list N := flat_map img_targets sl.
+
+Definition targeted (sl : list (list rel)) (p : part) : bool := memN (p_id p) (targets sl).
+(** _ImageParts.__iter__ yields it: some image relationship of a reachable part targets it *)
+Definition imgrel (sl : list (list rel)) (p : part) : bool := p_rel p || targeted sl p.
+(** ... and _find_by_sha1 looks at it *)
+Definition indexed (sl : list (list rel)) (p : part) : bool := p_cls p && imgrel sl p.
+(** Package.iter_parts yields it *)
+Definition reachable (sl : list (list rel)) (p : part) : bool := p_fix p || imgrel sl p.
+
+(** what walking the relationship graph finds, computed anew at every look-up *)
+Definition store (st : state) : list part := filter (reachable (st_slides st)) (st_heap st).
+Definition index (st : state) : list part := filter (indexed (st_slides st)) (st_heap st).
 
 Inductive use :=
   | UPicture (cx cy : option Z)     (* shapes.add_picture(file, x, y, cx, cy) *)
@@ -339,17 +374,30 @@ Inductive op :=
   | OAddSlide                       (* new slide; it has one relationship (its layout) *)
   | OOccupy (s : nat) (k : nat)     (* k other relationships added to slide s *)
   | OImage (s : nat) (im : image) (u : use)
+  | ODelSlide (s : nat)             (* the p:sldId of slide s removed and prs.part.drop_rel(its rId) *)
+  | ODropRel (s : nat) (k : N)      (* slide s: part.drop_rel(rIdk) after the last element using it went *)
   | OReload.                        (* save, then open the saved file *)
+
+Definition removal (o : op) : bool :=
+  match o with ODelSlide _ | ODropRel _ _ => true | _ => false end.
 
 Inductive outcome :=
   | OutUnit
-  | OutImg (name : str) (rid : N) (ext ct : str) (a b : Z).
+  | OutImg (pid : N) (name : str) (rid : N) (ext ct : str) (a b : Z)
+  | OutStore (names : list str).    (* after a removal: the names _ImageParts still yields *)
 
 Fixpoint set_nth {A} (n : nat) (x : A) (l : list A) : list A :=
   match l, n with
   | [], _ => []
   | _ :: r, O => x :: r
   | y :: r, S m => y :: set_nth m x r
+  end.
+
+Fixpoint remove_nth {A} (n : nat) (l : list A) : list A :=
+  match l, n with
+  | [], _ => []
+  | _ :: r, O => r
+  | y :: r, S m => y :: remove_nth m r
   end.
 
 Fixpoint occupy (k : nat) (rs : list rel) : res (list rel) :=
@@ -367,22 +415,24 @@ Section Store.
 
   Definition digest (p : part) : str := H (p_blob p).
 
-  (** _find_by_sha1: first iterated image part with that digest *)
-  Definition find_by_digest (d : str) (ps : list part) : option part :=
-    find (fun p => visible p && str_eqb (digest p) d) ps.
+  (** _find_by_sha1: the first image part the walk over the relationships yields that has
+      that digest -- a part no relationship leads to is never an answer *)
+  Definition find_by_digest (d : str) (st : state) : option part :=
+    find (fun p => indexed (st_slides st) p && str_eqb (digest p) d) (st_heap st).
 
-  (** ImagePart.new *)
-  Definition new_image_part (ps : list part) (im : image) : res part :=
+  (** ImagePart.new: the name is the first free number among the parts the package
+      reaches (iter_parts); the new object is not related to anything yet *)
+  Definition new_image_part (st : state) (im : image) : res part :=
     bind (image_ext (i_blob im) (i_meta im)) (fun e =>
-    bind (next_image_partname (map p_name ps) e) (fun nm =>
+    bind (next_image_partname (map p_name (store st)) e) (fun nm =>
     bind (ext_content_type e) (fun ct =>
-    Ok (mkPart nm ct (i_blob im) true true (i_meta im))))).
+    Ok (mkPart (st_next st) nm ct (i_blob im) true false false (i_meta im))))).
 
-  (** _ImageParts.get_or_add_image_part *)
-  Definition get_or_add (ps : list part) (im : image) : res (list part * part) :=
-    match find_by_digest (H (i_blob im)) ps with
-    | Some p => Ok (ps, p)
-    | None => bind (new_image_part ps im) (fun p => Ok (ps ++ [p], p))
+  (** _ImageParts.get_or_add_image_part: the heap afterwards and the part *)
+  Definition get_or_add (st : state) (im : image) : res (list part * part) :=
+    match find_by_digest (H (i_blob im)) st with
+    | Some p => Ok (st_heap st, p)
+    | None => bind (new_image_part st im) (fun p => Ok (st_heap st ++ [p], p))
     end.
 
   Definition apply_use (p : part) (u : use) : res (Z * Z) :=
@@ -394,19 +444,23 @@ Section Store.
     | URelOnly => Ok (0, 0)
     end.
 
-  (** save then load: names, content types and bytes come back unchanged; the class of
-      each part is chosen again from its content type *)
+  (** save then load: only the parts the package reaches are written; names, content
+      types and bytes come back unchanged; the class of each part is chosen again from its
+      content type *)
   Definition reload_part (p : part) : part :=
-    mkPart (p_name p) (p_ct p) (p_blob p) (ct_is_imagepart (p_ct p)) (p_rel p) (p_meta p).
+    mkPart (p_id p) (p_name p) (p_ct p) (p_blob p) (ct_is_imagepart (p_ct p)) (p_fix p) (p_rel p) (p_meta p).
+
+  Definition image_names (hp : list part) (sl : list (list rel)) : list str :=
+    map p_name (filter (imgrel sl) hp).
 
   Definition step (st : state) (o : op) : state * res outcome :=
     match o with
-    | OAddSlide => (mkState (st_parts st) (st_slides st ++ [[(1%N, None)]]), Ok OutUnit)
+    | OAddSlide => (mkState (st_heap st) (st_slides st ++ [[(1%N, None)]]) (st_next st), Ok OutUnit)
     | OOccupy s k =>
         match nth_error (st_slides st) s with
         | None => (st, Err IndexErr)
         | Some rs => match occupy k rs with
-                     | Ok rs' => (mkState (st_parts st) (set_nth s rs' (st_slides st)), Ok OutUnit)
+                     | Ok rs' => (mkState (st_heap st) (set_nth s rs' (st_slides st)) (st_next st), Ok OutUnit)
                      | Err e => (st, Err e)
                      end
         end
@@ -414,19 +468,37 @@ Section Store.
         match nth_error (st_slides st) s with
         | None => (st, Err IndexErr)
         | Some rs =>
-            match get_or_add (st_parts st) im with
+            match get_or_add st im with
             | Err e => (st, Err e)
-            | Ok (ps', p) =>
-                match relate (p_name p) rs with
+            | Ok (hp', p) =>
+                match relate (p_id p) rs with
                 | Err e => (st, Err e)
                 | Ok (rs', rid) =>
-                    let st' := mkState ps' (set_nth s rs' (st_slides st)) in
+                    let st' := mkState hp' (set_nth s rs' (st_slides st)) (N.max (st_next st) (N.succ (p_id p))) in
                     (st', bind (apply_use p u) (fun ab =>
-                          Ok (OutImg (p_name p) rid (ext (p_name p)) (p_ct p) (fst ab) (snd ab))))
+                          Ok (OutImg (p_id p) (p_name p) rid (ext (p_name p)) (p_ct p) (fst ab) (snd ab))))
                 end
             end
         end
-    | OReload => (mkState (map reload_part (st_parts st)) (st_slides st), Ok OutUnit)
+    | ODelSlide s =>
+        match nth_error (st_slides st) s with
+        | None => (st, Err IndexErr)
+        | Some _ =>
+            let sl' := remove_nth s (st_slides st) in
+            (mkState (st_heap st) sl' (st_next st), Ok (OutStore (image_names (st_heap st) sl')))
+        end
+    | ODropRel s k =>
+        match nth_error (st_slides st) s with
+        | None => (st, Err IndexErr)
+        | Some rs =>
+            match drop_rel k rs with
+            | Err e => (st, Err e)
+            | Ok rs' =>
+                let sl' := set_nth s rs' (st_slides st) in
+                (mkState (st_heap st) sl' (st_next st), Ok (OutStore (image_names (st_heap st) sl')))
+            end
+        end
+    | OReload => (mkState (map reload_part (store st)) (st_slides st) (st_next st), Ok OutUnit)
     end.
 
   Fixpoint run (st : state) (ops : list op) : state * list (res outcome) :=
@@ -439,4 +511,4 @@ Section Store.
   Definition final (st : state) (ops : list op) : state := fst (run st ops).
 End Store.
 
-Definition empty_state : state := mkState [] [].
+Definition empty_state : state := mkState [] [] 1%N.
